@@ -1220,21 +1220,22 @@ def scanParen (rest : List Nat) : Res (Bool × Option (List Nat) × List Nat) :=
   | _ => .ok (true, none, rest)
 
 /-- The number of capturing `(` the pre-scan (`scanLoop`) counts, without the saturation at
-`MAX_CAPTURE_GROUPS` (same control flow as `scanLoop`, everything but the count dropped). -/
-def capCount (fl : Flags) : Nat → List Nat → Nat
+`MAX_CAPTURE_GROUPS` (same control flow as `scanLoop`, everything but the count dropped; `us` is
+`flags.unicode_sets`, the only flag the pre-scan looks at). -/
+def capCount (us : Bool) : Nat → List Nat → Nat
   | 0, _ => 0
   | fuel+1, inp =>
     match inp with
     | [] => 0
     | c :: rest =>
-      if c == 0x5C then capCount fl fuel (rest.drop 1)
+      if c == 0x5C then capCount us fuel (rest.drop 1)
       else if c == 0x5B then
-        capCount fl fuel (if fl.unicodeSets then skipBracketV rest 1 else skipBracket rest)
+        capCount us fuel (if us then skipBracketV rest 1 else skipBracket rest)
       else if c == 0x28 then
         match scanParen rest with
         | .error _ => 0
-        | .ok (isCapturing, _, rest') => capCount fl fuel rest' + (if isCapturing then 1 else 0)
-      else capCount fl fuel rest
+        | .ok (isCapturing, _, rest') => capCount us fuel rest' + (if isCapturing then 1 else 0)
+      else capCount us fuel rest
 
 theorem scanParen_some {rest : List Nat} {b : Bool} {nm r : List Nat}
     (h : scanParen rest = .ok (b, some nm, r)) : b = true := by
@@ -1276,8 +1277,8 @@ theorem mapPush_forall {P : Nat → Prop} {m : List (List Nat × List Nat)} {k :
 theorem scanLoop_count (fl : Flags) : ∀ (fuel : Nat) (inp : List Nat) (sc sc' : Scan) (T0 : Nat),
     scanLoop fl fuel inp sc = .ok sc' → sc.gmax = min T0 Gen.MAX_CAPTURE_GROUPS →
     (∀ e ∈ sc.named, ∀ i ∈ e.2, i < T0) →
-    sc'.gmax = min (T0 + capCount fl fuel inp) Gen.MAX_CAPTURE_GROUPS ∧
-      ∀ e ∈ sc'.named, ∀ i ∈ e.2, i < T0 + capCount fl fuel inp := by
+    sc'.gmax = min (T0 + capCount fl.unicodeSets fuel inp) Gen.MAX_CAPTURE_GROUPS ∧
+      ∀ e ∈ sc'.named, ∀ i ∈ e.2, i < T0 + capCount fl.unicodeSets fuel inp := by
   intro fuel
   induction fuel with
   | zero => intro inp sc sc' T0 h; simp [scanLoop, panicAt] at h
@@ -1340,12 +1341,16 @@ def initState (pat : List Nat) (fl : Flags) : PState := { input := pat, flags :=
 
 /-- The number of capturing `(` the pre-scan of `parse pat fl` counts, before the saturation at
 `MAX_CAPTURE_GROUPS`. -/
-def preScanCount (pat : List Nat) (fl : Flags) : Nat := capCount (parseFlags fl) (pat.length + 1) pat
+def preScanCount (pat : List Nat) (fl : Flags) : Nat := capCount fl.unicodeSets (pat.length + 1) pat
+
+theorem parseFlags_unicodeSets (fl : Flags) : (parseFlags fl).unicodeSets = fl.unicodeSets := by
+  unfold parseFlags; split <;> rfl
 
 theorem parseCaptureGroups_count {st st1 : PState} (h0 : st.groupCountMax = 0) (hn : st.named = [])
     (h : parseCaptureGroups st = .ok st1) :
-    st1.groupCountMax = min (capCount st.flags (st.input.length + 1) st.input) Gen.MAX_CAPTURE_GROUPS ∧
-      SOK (capCount st.flags (st.input.length + 1) st.input) st1 := by
+    st1.groupCountMax =
+        min (capCount st.flags.unicodeSets (st.input.length + 1) st.input) Gen.MAX_CAPTURE_GROUPS ∧
+      SOK (capCount st.flags.unicodeSets (st.input.length + 1) st.input) st1 := by
   unfold parseCaptureGroups at h
   split at h
   · cases h
@@ -1382,8 +1387,10 @@ theorem parse_core {pat : List Nat} {fl : Flags} {re : Regex} (hb : ∀ c ∈ pa
     obtain ⟨h1, h2, h3, h4, h5⟩ := parseCaptureGroups_inv hi0.named hcg
     have hi1 : Parse.Inv st1 := ⟨h1, h3 ▸ hi0.depth, h4 ▸ hi0.groups, h5 ▸ hi0.loops, h2 ▸ hi0.bnd⟩
     have hcnt := parseCaptureGroups_count (st := initState pat fl) rfl rfl hcg
-    have hT : capCount (initState pat fl).flags ((initState pat fl).input.length + 1) (initState pat fl).input =
-        preScanCount pat fl := rfl
+    have hT : capCount (initState pat fl).flags.unicodeSets ((initState pat fl).input.length + 1)
+        (initState pat fl).input = preScanCount pat fl := by
+      show capCount (parseFlags fl).unicodeSets _ _ = _
+      rw [parseFlags_unicodeSets]; rfl
     rw [hT] at hcnt
     have hg0 : st1.groupCount = 0 := h4
     unfold parseBody at hp
